@@ -717,7 +717,7 @@ pub fn harnesses() -> Vec<H> {
             bound: "three strings from a 6-string catalogue (1-4 byte scalars, combining sequence, empty) in ConsecutiveIndexPairs<StringRegion>, CollapseSequence<ConsecutiveIndexPairs<StringRegion>>, SliceRegion<StringRegion>, ColumnsRegion<StringRegion> (incl. clone and merge_regions)", kani: false },
         H { name: "fanout_roundtrip", props: &["C01", "C02", "C20", "C14"], nargs: 8, pre: pre_fan, doms: doms_fan, run: run_fan, panic_ok: false,
             bound: "OptionRegion<StringRegion>, ResultRegion<StringRegion, MirrorRegion<u8>>, TupleABRegion<StringRegion, MirrorRegion<u64>>: two pushes, each variant, owned and reference forms, twin fed owned forms", kani: false },
-        H { name: "columns_ragged", props: &["C12", "C01", "C02", "C13", "C20"], nargs: 6, pre: pre_cols, doms: doms_cols, run: run_cols, panic_ok: true,
+        H { name: "columns_ragged", props: &["C12", "C01", "C02", "C13", "C20", "C14"], nargs: 6, pre: pre_cols, doms: doms_cols, run: run_cols, panic_ok: true,
             bound: "ColumnsRegion<MirrorRegion<u8>> with IndexOptimized and Vec<usize> offsets: three rows of width 0..3 in any order, eight input forms (slice, Vec, &Vec, PushIter over an exact and over an inexact-size_hint iterator, read item of another region, [T;N], &[T;N]), compared with a twin fed slices, rotated over the rows, all rows re-read after every push, out-of-bounds probe at any position", kani: false },
         H { name: "collapse_boundaries", props: &["C11", "C08", "C09", "C10", "C18", "C20", "C01"], nargs: 5, pre: pre_collapse, doms: doms_collapse, run: run_collapse, panic_ok: false,
             bound: "CollapseSequence at the top, over ConsecutiveIndexPairs, inside a tuple and inside a slice region: three strings over a 3-value domain; boundaries none / clear / merge_regions / clone / clone_from into a pre-filled destination / reserve_regions between pushes; and over an encoded HuffmanContainer fed decoded read items (prefix / extension / empty); inside SliceRegion<.., IndexOptimized> over consecutive pairs (the benchmark composition), two rounds with an optional clear", kani: false },
